@@ -256,9 +256,8 @@ from . import rules_tables as RT
       trusted=("NumPy scalar != is value comparison", "Python `or` short-circuits left to right"))
 def c15(ctx):
     RT.rule_mergeguard(ctx)
-    RT.rule_wrapper_once(ctx, SKETCH_CLASSES, ("merge",))
-    RT.rule_state_owner(ctx, methods=("merge",))        # C15 is about merge()
-    RA.rule_attr_type(ctx)
+    # what merge() does once the guard has passed is C09/C01/C02's concern; here: the compared attributes have the types the guard relies on
+    RA.rule_attr_type(ctx, narrowing=False)
     ctx.floor("guard-first", 20)
     ctx.floor("guard-set", 18 + 5)
     ctx.floor("guard-order", 2)
@@ -275,7 +274,7 @@ def c15(ctx):
       trusted=("np.savez / np.load round-trip arrays exactly",))
 def c10(ctx):
     RT.rule_persist(ctx)
-    RA.rule_attr_type(ctx)
+    RA.rule_attr_type(ctx, narrowing=False)
     RT.rule_dispatch(ctx)
     RT.rule_post_load(ctx)
     RT.rule_reload_valid(ctx)
